@@ -24,7 +24,7 @@
 
 UtilContext::UtilContext() :
   simulate          { nullptr },
-  cpu_name          { nullptr },
+  cpu_name          { "msp430" },
   flags             { 0 },
   bytes_per_address { 1 },
   alignment         { 1 },
